@@ -57,6 +57,7 @@ struct Rec {
     bool null_ok = false;    // OK with null pointer
     std::vector<std::pair<std::string, std::string>> scan_out; // scan result (key, bytes or "<null>")
     ykc::NvVec nv;
+    std::pair<node_version64_body, node_version64*> cv{node_version64_body{}, nullptr}; // get: checked version of a miss
     std::vector<std::pair<const char*, std::string>> held; // value pointers handed out, with the bytes they showed then
     bool done = false;
 };
@@ -257,7 +258,8 @@ public:
             r.call = ykmc::op_begin();
             switch (o.kind) {
                 case GET: {
-                    ykc::GetResult g = ykc::t_get(ti, o.key);
+                    r.cv.second = nullptr;
+                    ykc::GetResult g = ykc::t_get(ti, o.key, &r.cv);
                     r.st = g.st;
                     r.bytes = g.bytes;
                     r.null_ok = g.null_ok;
@@ -427,6 +429,9 @@ public:
         }
         // C05 on top of the concurrent execution: a scan whose collected pairs are all still current at the end promises that a LATER
         // insert into its interval changes one of them. Probe it: insert each absent candidate key of the interval in turn.
+        if ((oracles & (O_PHANTOM | O_LIN)) != 0 && r.verdict == ykmc::V_OK && w.errors.empty()) {
+            for (auto* g : points) check_get_miss_version(r, *g, final_model, w.nodes.size());
+        }
         if ((oracles & O_PHANTOM) != 0 && r.verdict == ykmc::V_OK && w.errors.empty()) {
             for (auto* s : scans) probe_later_inserts(r, *s, final_model, points, w.nodes.size());
         }
@@ -535,6 +540,41 @@ public:
                 return;
             }
         }
+    }
+
+    // C05 (get): a get that missed reports (version, node) of the border in which it established the absence. The key is absent at
+    // the get's linearization point, so if it is stored when the execution ends it was inserted after that point and the pair
+    // must be stale; if it is still absent and the pair still current, inserting it now must make the pair stale.
+    void check_get_miss_version(ykmc::ExecResult& r, const Rec& g, const Model& final_model, std::size_t node_count) {
+        if (g.op.kind != GET || g.st != status::WARN_NOT_EXIST || g.cv.second == nullptr) return;
+        auto current = [&]() {
+            auto info = ykalloc::lookup(g.cv.second);
+            if (info.found && !info.live) return false;
+            return g.cv.second->get_stable_version() == g.cv.first;
+        };
+        const std::string& k = g.op.key;
+        if (final_model.count(k) != 0) {
+            if (current()) {
+                fail(r, "phantom:get_miss_undetected_insert",
+                     op_name(g.op) + " of T" + std::to_string(g.tid) + " reported WARN_NOT_EXIST with a checked version that is still current although the key was inserted later");
+            }
+            return;
+        }
+        if (!current()) return;
+        std::size_t retired_before = retired_nodes.size();
+        status ps = ykc::t_put(setup_token, ti, k, ykc::val_of(k, 1), true);
+        if (ps != status::OK) {
+            fail(r, "phantom:probe_insert_failed", "unique insert of the absent key " + ykc::hex(k) + " after the execution returned " + ykc::st_name(ps));
+            return;
+        }
+        if (current()) {
+            fail(r, "phantom:get_miss_undetected_later_insert",
+                 "the checked version of " + op_name(g.op) + " (WARN_NOT_EXIST) was current when the execution ended and the insert of the key did not change it");
+            return;
+        }
+        ykc::t_remove(setup_token, ti, k);
+        (void) retired_before;
+        (void) node_count;
     }
 
     void probe_later_inserts(ykmc::ExecResult& r, const Rec& s, const Model& final_model, const std::vector<const Rec*>& points, std::size_t node_count) {
